@@ -278,7 +278,7 @@ def get_omegaconf_loader():
 
     def omegaconf_load(value):
         value_pyyaml = yaml_load(value)
-        if isinstance(value_pyyaml, (str, int, float, bool)) or value_pyyaml is None:
+        if not isinstance(value_pyyaml, (dict, list)):
             return value_pyyaml
         value_omegaconf = OmegaConf.to_object(OmegaConf.load(io.StringIO(value)))
         str_ref = {k: None for k in [value]}
